@@ -101,7 +101,7 @@ def computeBlockStarts (small : Nat → Nat → Bool) (reads : List (List Nat)) 
 /-! ## the columns a (sub-)instance can return for one genotype -/
 
 /-- `haps = sorted(list(chain(*[[[a]] * g[a] for a in g])))` of a one-variant block, as a column -/
-def singletonCol (gv : List Allele) : List Allele := gv.mergeSort (fun a b => decide (a ≤ b))
+def singletonCol (gv : List Allele) : List Allele := isort (fun a b => decide (a ≤ b)) gv
 
 /-- results of `force_genotypes` on a column (after the repair of F8: some permutation is always taken) -/
 def ForceOut (col gv out : List Allele) : Prop :=
@@ -156,7 +156,7 @@ def mapSubBreakpoints {C} (snps ts : List Nat) (bps : List (Breakpoint C)) : Lis
 
 /-- `breakpoints.sort(key=lambda x: x.position)` (stable) -/
 def sortByPosition {C} (bps : List (Breakpoint C)) : List (Breakpoint C) :=
-  bps.mergeSort (fun a b => decide (a.position ≤ b.position))
+  isort (fun a b => decide (a.position ≤ b.position)) bps
 
 /-- one step of "Join duplicate breakpoints": `acc` newest first -/
 def joinStep {C} (mul : C → C → C) (acc : List (Breakpoint C)) (b : Breakpoint C) : List (Breakpoint C) :=
@@ -181,6 +181,9 @@ structure BlockBps (C : Type) where
   ncols : Nat
   bps : List (Breakpoint C)
 
+/-- `len(haplotypes[0])` of the aggregate -/
+def totalCols {C} (rs : List (BlockBps C)) : Nat := (rs.map (·.ncols)).sum
+
 /-- the breakpoint list of `aggregate_results(results, ploidy, borders)`, `off` = `pos_offset` -/
 def aggregateBps {C} (zero : C) (ploidy : Nat) (borders : List Nat) : Nat → List (BlockBps C) → List (Breakpoint C)
   | _, [] => []
@@ -193,7 +196,7 @@ def aggregateBps {C} (zero : C) (ploidy : Nat) (borders : List Nat) : Nat → Li
 
 /-- `for left, right in zip(sorted(perm), perm): nxt[prevA.index(left)] = right`, `nxt` starting as a copy of `prevA` -/
 def applyPerm (prevA : List Nat) (perm : List Nat) : List Nat :=
-  ((perm.mergeSort (fun a b => decide (a ≤ b))).zip perm).foldl (fun nxt lr => nxt.set (prevA.idxOf lr.1) lr.2) prevA
+  ((isort (fun a b => decide (a ≤ b)) perm).zip perm).foldl (fun nxt lr => nxt.set (prevA.idxOf lr.1) lr.2) prevA
 
 def assignmentsFrom : List Nat → List (List Nat) → List (List Nat)
   | a, [] => [a]
